@@ -1,6 +1,6 @@
 (* Property-level theorems of the MQ arithmetic coder (jpeg2000/mqc), in Props format.
    The integrator merges the C20_/C16_/C08_ blocks into Props/C20.v, C16.v, C08.v. *)
-From V Require Import Common.Base MQ.MqModel MQ.MqProofs MQ.MqProofsDec MQ.MqProofsRt MQ.MqProofsRt2.
+From V Require Import Common.Base MQ.MqModel MQ.MqProofs MQ.MqProofsDec MQ.MqProofsRt MQ.MqProofsRt2 MQ.MqProofsTerm.
 
 (* ====================================== C20 ====================================== *)
 
@@ -89,6 +89,38 @@ Proof.
   split; [vm_compute; reflexivity|]. split; [|vm_compute; reflexivity].
   repeat constructor; vm_compute; congruence.
 Qed.
+
+(* Predictable termination: after any decision sequence, ErtermEnc does not index outside the
+   buffer and the bytes GetBuffer then returns contain no FF followed by > 0x8F and do not end
+   in FF. *)
+Theorem C16_mq_erterm_no_marker : forall cx l, Forall cx_ok cx ->
+  let e := enc_encode_list (enc_new_cx cx) l in
+  enc_erterm_panics e = false /\
+  let out := enc_get_buffer (enc_erterm e) in Forall is_byteP out /\ no_marker_in out.
+Proof. exact mq_erterm_no_marker. Qed.
+Print Assumptions C16_mq_erterm_no_marker.
+
+(* RAW (bypass) segments: the bytes BypassInitEnc ; BypassEncode* ; BypassFlushEnc(erterm) add
+   above the starting position: every FF is followed by a byte < 0x80 and the segment does not
+   end in FF (either value of erterm), provided the byte before the segment is not FF (which
+   Flush and ErtermEnc guarantee, see C16_mq_no_marker / C16_mq_erterm_no_marker). *)
+Theorem C16_mq_bypass_segment_no_marker : forall e0 bits erterm,
+  Forall (fun b => b = 0 \/ b = 1) bits ->
+  (e_pre e0 = [] \/ hd 0 (e_pre e0) <> 255) ->
+  let e3 := enc_bypass_flush (fold_left enc_bypass_encode bits (enc_bypass_init e0)) erterm in
+  exists seg, e_pre e3 = rev seg ++ e_pre e0 /\ Forall is_byteP seg /\
+    (forall l1 y l2, seg = l1 ++ 255 :: y :: l2 -> y < 0x80) /\
+    (forall l1, seg <> l1 ++ [255]).
+Proof. exact bypass_segment_no_marker. Qed.
+Print Assumptions C16_mq_bypass_segment_no_marker.
+
+(* the FF 2A rule under predictable termination, and the dropped FF without it *)
+Example C16_mq_bypass_nonvacuous :
+  e_pre (enc_bypass_flush (fold_left enc_bypass_encode [1;1;1;1;1;1;1;1] (enc_bypass_init (enc_new 2))) true)
+    = rev [255; 42] ++ [] /\
+  e_pre (enc_bypass_flush (fold_left enc_bypass_encode [1;1;1;1;1;1;1;1] (enc_bypass_init (enc_new 2))) false)
+    = rev [] ++ [].
+Proof. split; vm_compute; reflexivity. Qed.
 
 (* ====================================== C08 ====================================== *)
 
